@@ -23,6 +23,7 @@ type flaky struct {
 	attempts []time.Duration
 	hdr      map[string][]string
 	body     []byte
+	failLatency time.Duration
 	latency  map[int]time.Duration // attempt index -> how long the wrapped getter takes to answer
 	maxCalls int // safety valve against a spinning loop: after this many attempts, sleep a little per call
 }
@@ -37,6 +38,8 @@ func (f *flaky) Get(url string) (map[string][]string, []byte, error) {
 	}
 	if d, ok := f.latency[n]; ok {
 		time.Sleep(d)
+	} else if f.failLatency > 0 && (f.failures < 0 || n < f.failures) {
+		time.Sleep(f.failLatency)
 	}
 	if f.failures < 0 || n < f.failures {
 		return nil, nil, errors.New("scripted failure")
@@ -48,6 +51,7 @@ type retryCase struct {
 	timeout, cap time.Duration
 	failures     int // -1 = forever
 	slowSuccess  time.Duration // the successful attempt takes this long to answer (it may straddle the deadline)
+	slowFailure  time.Duration // every failing attempt takes this long to answer
 }
 
 type retryResult struct {
@@ -61,7 +65,7 @@ type retryResult struct {
 }
 
 func runRetry(c retryCase) retryResult {
-	hdr := map[string][]string{"Tcb-Info-Issuer-Chain": {"chain-value"}, "X-Other": {"a", "b"}}
+	hdr := retryHeaders()
 	body := []byte("the body of the first successful response")
 	effc := c.cap
 	if effc < time.Millisecond {
@@ -69,6 +73,7 @@ func runRetry(c retryCase) retryResult {
 	}
 	// the valve engages only once the busy-loop limit is exceeded anyway
 	f := &flaky{failures: c.failures, hdr: hdr, body: body, maxCalls: 10*int(c.timeout/effc) + 110}
+	f.failLatency = c.slowFailure
 	if c.slowSuccess > 0 && c.failures >= 0 {
 		f.latency = map[int]time.Duration{c.failures: c.slowSuccess}
 	}
@@ -124,18 +129,22 @@ func c20(x *mon.Ctx) {
 					continue
 				}
 				seen[k] = true
-				cases = append(cases, retryCase{to, cp, k, 0})
+				cases = append(cases, retryCase{to, cp, k, 0, 0})
 			}
 		}
 	}
 	// a success that is delivered: immediately although the timeout is zero; or by an attempt that started before the deadline and answers after it
 	cases = append(cases,
-		retryCase{300 * time.Millisecond, 200 * time.Millisecond, 1, 250 * time.Millisecond},
-		retryCase{300 * time.Millisecond, 100 * time.Millisecond, 2, 250 * time.Millisecond},
-		retryCase{50 * time.Millisecond, 20 * time.Millisecond, 0, 120 * time.Millisecond},
-		retryCase{0, 20 * time.Millisecond, 0, 30 * time.Millisecond})
+		retryCase{300 * time.Millisecond, 200 * time.Millisecond, 1, 250 * time.Millisecond, 0},
+		retryCase{300 * time.Millisecond, 100 * time.Millisecond, 2, 250 * time.Millisecond, 0},
+		retryCase{50 * time.Millisecond, 20 * time.Millisecond, 0, 120 * time.Millisecond, 0},
+		retryCase{0, 20 * time.Millisecond, 0, 30 * time.Millisecond, 0},
+		// failures that are slow themselves (connect / read timeouts): the time spent inside the wrapped getter counts against the timeout
+		retryCase{300 * time.Millisecond, 20 * time.Millisecond, -1, 0, 100 * time.Millisecond},
+		retryCase{300 * time.Millisecond, 1 * time.Millisecond, -1, 0, 50 * time.Millisecond},
+		retryCase{time.Second, 100 * time.Millisecond, 40, 0, 150 * time.Millisecond})
 	if !x.Quick() {
-		cases = append(cases, retryCase{2 * time.Minute, 30 * time.Second, -1, 0}, retryCase{2 * time.Minute, 30 * time.Second, 3, 0})
+		cases = append(cases, retryCase{2 * time.Minute, 30 * time.Second, -1, 0, 0}, retryCase{2 * time.Minute, 30 * time.Second, 3, 0, 0})
 	}
 	var mu sync.Mutex
 	results := make([]retryResult, len(cases))
@@ -157,6 +166,9 @@ func c20(x *mon.Ctx) {
 		if c.slowSuccess > 0 {
 			param += fmt.Sprintf(" success-takes=%v", c.slowSuccess)
 		}
+		if c.slowFailure > 0 {
+			param += fmt.Sprintf(" each-failure-takes=%v", c.slowFailure)
+		}
 		var probs []string
 		calm := r.late < slack/4
 		n := len(r.attempts)
@@ -170,7 +182,7 @@ func c20(x *mon.Ctx) {
 		}
 		// spacing
 		for k := 1; k < n && len(probs) == 0; k++ {
-			gap := r.attempts[k] - r.attempts[k-1]
+			gap := r.attempts[k] - r.attempts[k-1] - c.slowFailure // start-to-start minus the time the failing attempt itself took
 			if gap > c.cap+slack {
 				if calm {
 					probs = append(probs, fmt.Sprintf("waited %v between attempts %d and %d, the maximum retry delay is %v", gap, k-1, k, c.cap))
@@ -184,7 +196,7 @@ func c20(x *mon.Ctx) {
 		}
 		succeeded := r.err == nil
 		if succeeded {
-			want := map[string][]string{"Tcb-Info-Issuer-Chain": {"chain-value"}, "X-Other": {"a", "b"}}
+			want := retryHeaders()
 			if !reflect.DeepEqual(r.hdr, want) || string(r.body) != "the body of the first successful response" {
 				probs = append(probs, "the returned response differs from the wrapped getter's first successful response")
 			}
@@ -200,7 +212,7 @@ func c20(x *mon.Ctx) {
 			if r.hdr != nil || r.body != nil {
 				probs = append(probs, "an error was returned together with response data")
 			}
-			if r.ret > c.timeout+c.cap+slack {
+			if r.ret > c.timeout+c.cap+c.slowFailure+slack {
 				if calm {
 					probs = append(probs, fmt.Sprintf("gave up after %v; timeout %v + one retry delay %v", r.ret, c.timeout, c.cap))
 				} else {
@@ -217,7 +229,7 @@ func c20(x *mon.Ctx) {
 			}
 			// giving up although the success was due well inside the timeout is allowed by the statement only if time ran out:
 			// the k-th failure comes at about k*cap; flag only a clear case
-			if c.failures >= 0 && c.cap > 0 && c.cap < 5*time.Second && time.Duration(c.failures+2)*c.cap+slack < c.timeout && calm {
+			if c.failures >= 0 && c.slowFailure == 0 && c.cap > 0 && c.cap < 5*time.Second && time.Duration(c.failures+2)*c.cap+slack < c.timeout && calm {
 				probs = append(probs, fmt.Sprintf("gave up after %d attempts (%v) although the success was due after %d failures, well inside the timeout", n, r.ret, c.failures))
 			}
 		}
@@ -242,4 +254,12 @@ func head(d []time.Duration, n int) []time.Duration {
 		return d[:n]
 	}
 	return d
+}
+
+
+// retryHeaders is what the wrapped getter answers with: names in and out of Go's canonical form (Intel documents
+// "TCB-Info-Issuer-Chain"), two spellings of one name, a name without values, several values.
+func retryHeaders() map[string][]string {
+	return map[string][]string{"Tcb-Info-Issuer-Chain": {"chain-value"}, "TCB-Info-Issuer-Chain": {"as-documented"}, "x-lower-case": {"v"}, "Request-ID": {"r1"},
+		"X-Other": {"a", "b"}, "X-No-Values": {}, "X-Empty-Value": {""}}
 }
